@@ -20,6 +20,14 @@ PROPS = {
                        'parse_comps returns pieces that tile exactly the truncated region (point-wise, exists-unique) and meet the depth rules; '
                        'tied to aliquot_parse.py by regenerated tables + exhaustive differential execution.',
     },
+    'C12': {
+        'group': 'trs',
+        'level': 'proof',
+        'explanation': 'Proved so far: every township/range < 1000 and section < 100 in every encoding and default yields its canonical component '
+                       '(finite domain closed by vm_compute, lifted by forallb_forall); empty input is undefined. Full statements of construct/decompose/'
+                       'idempotence/strictness are in Spec/C12Spec.v; the unproved ones are carried by exhaustive-mutation correspondence and an independent oracle. '
+                       'Tied to trs.py by regenerated patterns/placeholders + differential execution.',
+    },
 }
 
 NOT_CLAIMED = {}
